@@ -11,10 +11,17 @@
     1/2  per field: out of range ⇒ nothing is written; in range and populated ⇒ the kind's encoding is written;
     3    the cell every nested field loop sees is the header's ProtocolVersion (the cell is only ever written
          by the first field of the two headers — a decidable fact of the regenerated schema);
+    3'   END TO END: the bytes of a whole message = the bytes obtained, with the schema RESTRICTED to the
+         header's version (no later element, no annotation), from the message stripped of its later elements;
     4    the decoder consults the range only for ABSENT elements;
-    5    the `version=` annotations of the Go structs are exactly the pinned introduction table.
+    5    the `version=` annotations of the Go structs are exactly the pinned introduction table, POSITION-AWARE
+         (structure key, element tag, occurrence of that tag in the structure, version).
+
+  1, 1', 2, 2', 4 are one-step characterisations of the model's field loops (true by unfolding the model: all
+  their force comes from the model/code correspondence); the content is in 3, 3' (inductions over the five
+  mutually recursive encoders) and 5 (kernel-evaluated comparison of regenerated data with pinned data).
 -/
-import KmipModel.Lemmas.PlanLemmas
+import KmipModel.Lemmas.GateLemmas
 import KmipModel.Gen.Schema
 import KmipModel.Pinned.Introduced
 namespace Kmip.C05
@@ -146,6 +153,75 @@ theorem gen_no_nested_set_version : Gen.schema.noNestedSetVersion 128 = true := 
 theorem gen_message_shape : Gen.schema.messageShape 128 = true := by decide +kernel
 theorem gen_dyns_svFree : Gen.schema.dynsSvFree 128 = true := by decide +kernel
 
+/-! ### 3' — end to end: every element at every depth is gated by the header's version -/
+
+/-- 3'a. what the version-`V` schema is: a reflectively encoded struct keeps exactly the fields that exist at
+    `V` (same order), and none of them carries an annotation any more — encoding with it gates nothing. -/
+theorem restricted_schema_has_no_later_element (S : Schema) (V : Ver) (id : Nat)
+    (h : (S.structDef id).encCustom = false) :
+    ((S.restrict V).structDef id).fields
+        = ((S.structDef id).fields.filter (Field.inAt V)).map Field.ungate ∧
+    ∀ f ∈ ((S.restrict V).structDef id).fields, f.vrange = none :=
+  S.restrict_fields V id h
+
+/-- 3'b. **any value, any depth**: under the version cell `V`, a value whose kind reaches no set-version field
+    encodes to the same items as, in the version-`V` schema, the value stripped of the elements that do not
+    exist at `V` (`rvK` drops them in every nested struct, slice element, pointer target and interface value).
+    Hence: no element introduced after `V` is written at any depth, and every element that the restricted
+    schema's (ungated) encoder writes for the stripped value is written. -/
+theorem encode_at_version_eq_restricted (S : Schema) (V : Ver) (N fuel : Nat)
+    (hC : S.customsUngated = true) (hO : S.noOmitemptyStruct = true)
+    (k : Kind) (tag : Nat) (v : Val) (r : EncSt) (hk : svFreeK S N k = true)
+    (hv : v.dynsOk (S.svFreeDyn N) = true) (h : encK S fuel k tag v (some V) = .ok r) :
+    encK (S.restrict V) fuel k tag (rvK S V fuel k v) (some V) = .ok r :=
+  (restrictOk S V _ (S.svFreeDyn_sound N) hC hO fuel).encK k tag v r ⟨N, hk⟩ hv h
+
+/-- 3'c. **whole messages** (general schema): `marshal` of a message whose header announces `M.m` equals
+    `marshal`, with the schema restricted to `M.m`, of the message stripped of its later elements — the header's
+    own later fields included. The version cell starts empty (`none`) and is set by the header itself. -/
+theorem marshal_eq_marshal_restricted (S : Schema) (N : Nat)
+    (hH : S.noNestedSetVersion N = true) (hM : S.messageShape N = true) (hC : S.customsUngated = true)
+    (hO : S.noOmitemptyStruct = true) (hP : S.pvPlain = true)
+    (dyn : Nat) (hdyn : S.isMessageDyn dyn = true) (tag : Nat) (M m : Val) (hs : List Val) (bv : Val)
+    (hv : Val.dynsOkL (S.svFreeDyn N) [.struct (.struct [M, m] :: hs), bv] = true) (bs : Bytes)
+    (h : marshal S dyn tag (.ptr (some (.struct [.struct (.struct [M, m] :: hs), bv]))) = .ok bs) :
+    marshal (S.restrict (Val.struct [M, m]).asVer) dyn tag
+      (restrictMessage S (Val.struct [M, m]).asVer dyn
+        (.ptr (some (.struct [.struct (.struct [M, m] :: hs), bv])))) = .ok bs :=
+  Kmip.marshal_eq_marshal_restricted S N hH hM hC hO hP dyn hdyn tag M m hs bv hv bs h
+
+/-- 3'd. the decidable side conditions of 3'b/3'c hold of the regenerated schema: structs with a hand-written
+    encoder carry no annotation (Go would ignore it); no `omitempty` field holds a struct directly; the first
+    header field is an unannotated struct of two plain integers; the two message types are what they are. -/
+theorem gen_customs_ungated : Gen.schema.customsUngated = true := by decide +kernel
+theorem gen_no_omitempty_struct : Gen.schema.noOmitemptyStruct = true := by decide +kernel
+theorem gen_pv_plain : Gen.schema.pvPlain = true := by decide +kernel
+theorem gen_message_dyns : Gen.schema.isMessageDyn Gen.requestMessageDyn = true ∧
+    Gen.schema.isMessageDyn Gen.responseMessageDyn = true := by decide +kernel
+
+/-- 3'e. **the library's messages**: for the schema regenerated from the Go types and both message types
+    (`response = false/true`): whatever the header (`M`, `m`, other header fields `hs`) and the batch items
+    `bv`, provided the interface values inside hold registered payload / object / attribute types (not a
+    message smuggled behind an interface), the bytes `ttlv.MarshalTTLV` produces are the bytes of the message
+    stripped of everything later than `M.m`, encoded with the schema of version `M.m`. -/
+theorem gen_marshal_at_header_version (response : Bool) (M m : Val) (hs : List Val) (bv : Val)
+    (hv : Val.dynsOkL Gen.schema.payloadLikeDyn [.struct (.struct [M, m] :: hs), bv] = true) (bs : Bytes)
+    (h : marshal Gen.schema (if response then Gen.responseMessageDyn else Gen.requestMessageDyn) 0
+      (.ptr (some (.struct [.struct (.struct [M, m] :: hs), bv]))) = .ok bs) :
+    marshal (Gen.schema.restrict (Val.struct [M, m]).asVer)
+      (if response then Gen.responseMessageDyn else Gen.requestMessageDyn) 0
+      (restrictMessage Gen.schema (Val.struct [M, m]).asVer
+        (if response then Gen.responseMessageDyn else Gen.requestMessageDyn)
+        (.ptr (some (.struct [.struct (.struct [M, m] :: hs), bv])))) = .ok bs := by
+  have hv' := Val.dynsOkL_mono _ _ (Gen.schema.payloadLikeDyn_svFree 128 gen_dyns_svFree) _ hv
+  have hd : Gen.schema.isMessageDyn (if response then Gen.responseMessageDyn else Gen.requestMessageDyn)
+      = true := by
+    cases response
+    · exact gen_message_dyns.1
+    · exact gen_message_dyns.2
+  exact Kmip.marshal_eq_marshal_restricted Gen.schema 128 gen_no_nested_set_version gen_message_shape
+    gen_customs_ungated gen_no_omitempty_struct gen_pv_plain _ hd 0 M m hs bv hv' bs h
+
 /-! ### 4 — decoding is lenient -/
 
 /-- 4. when the element is present on the wire (the current tag is the field's tag) it is decoded by the
@@ -161,41 +237,94 @@ theorem decode_lenient (S : Schema) (fuel : Nat) (f : Field) (fs : List Field) (
 
 /-! ### 5 — the `version=` annotations are the pinned table -/
 
-/-- 5. the set of (structure key, element tag, introduction version) rows carried by the Go structs equals
-    the pinned table of DESIGN.md Appendix B (61 rows): both inclusions and the same number of rows — a
-    field that gains or loses a range, or whose start version changes, or gets an upper bound, fails. -/
-theorem gen_gating_matches : gatingMatches Pinned.introduced Gen.schema = true := by decide +kernel
+/-- 5. the set of (structure key, element tag, occurrence, introduction version) rows carried by the Go structs
+    equals the pinned table of DESIGN.md Appendix B (61 rows): both inclusions and the same number of rows — a
+    field that gains or loses a range, whose start version changes, that gets an upper bound, or an annotation
+    MOVED to another field with the same tag in the same structure (Authentication: Credential vs additional
+    Credential) fails. -/
+theorem gen_gating_matches : gatingMatchesPos Pinned.introduced Gen.schema = true := by decide +kernel
 
 /-- 5a. what 5 means, code ⇒ table: every field of every struct of the schema that carries a range has an
-    open-ended range `vM.m..`, sits in a struct with a stable key, and is pinned at exactly that version. -/
-theorem gen_every_range_is_pinned (id : Nat) (hid : id < Gen.schema.structs.length) (f : Field)
-    (hf : f ∈ (Gen.schema.structDef id).fields) (r : VRange) (hr : f.vrange = some r) :
+    open-ended range `vM.m..`, sits in a struct with a stable key, and is pinned at exactly that version and
+    position (`occ` = number of earlier fields of the struct with the same tag). -/
+theorem gen_every_range_is_pinned (id : Nat) (hid : id < Gen.schema.structs.length) (f : Field) (occ : Nat)
+    (hf : (f, occ) ∈ withOcc [] (Gen.schema.structDef id).fields) (r : VRange) (hr : f.vrange = some r) :
     r.stop = none ∧ ∃ M m, r.start = some (M, m) ∧ structKeys Gen.schema id ≠ [] ∧
-      ∀ k ∈ structKeys Gen.schema id, (k, f.tag, M, m) ∈ Pinned.introduced :=
-  gatingMatches_code_in_table _ _ gen_gating_matches id hid f hf r hr
+      ∀ k ∈ structKeys Gen.schema id, (k, f.tag, occ, M, m) ∈ Pinned.introduced :=
+  gatingMatchesPos_code_in_table _ _ gen_gating_matches id hid f occ hf r hr
 
-/-- 5b. table ⇒ code: every pinned row is the annotation of some field of the struct with that key. -/
-theorem gen_every_pin_is_annotated (q : Nat × Nat × Nat × Nat) (hq : q ∈ Pinned.introduced) :
+/-- 5b. table ⇒ code: every pinned row is the annotation of the field at that position of the struct with
+    that key. -/
+theorem gen_every_pin_is_annotated (q : Nat × Nat × Nat × Nat × Nat) (hq : q ∈ Pinned.introduced) :
     ∃ id, id < Gen.schema.structs.length ∧ q.1 ∈ structKeys Gen.schema id ∧
-      ∃ f ∈ (Gen.schema.structDef id).fields,
-        f.tag = q.2.1 ∧ f.vrange = some { start := some (q.2.2.1, q.2.2.2), stop := none } :=
-  gatingMatches_table_in_code _ _ gen_gating_matches q hq
+      ∃ f, (f, q.2.2.1) ∈ withOcc [] (Gen.schema.structDef id).fields ∧
+        f.tag = q.2.1 ∧ f.vrange = some { start := some (q.2.2.2.1, q.2.2.2.2), stop := none } :=
+  gatingMatchesPos_table_in_code _ _ gen_gating_matches q hq
+
+/-- the occurrence number is what it says: the number of earlier fields with the same tag. -/
+theorem occurrence_counts_earlier_same_tag (fields : List Field) (f : Field) (occ : Nat)
+    (h : (f, occ) ∈ withOcc [] fields) :
+    ∃ pre post, fields = pre ++ f :: post ∧ occ = (pre.map (·.tag)).count f.tag := by
+  obtain ⟨pre, post, he, ho⟩ := withOcc_mem h
+  exact ⟨pre, post, he, by simpa using ho⟩
 
 /-- 5c. `contains` for the ranges of the table: an element introduced at `s` is in range exactly from `s` on. -/
 theorem introduced_range_contains (s v : Ver) :
     ({ start := some s, stop := none } : VRange).contains v = !(Ver.lt v s) := by
   simp [VRange.contains]
 
+/-- 5d. 3' and 5 together, code ⇒ specification: a field that the version-`V` schema of the library does NOT
+    have is an element the pinned table introduces after `V` (under every key of its struct). -/
+theorem gen_dropped_field_is_pinned_later (V : Ver) (id : Nat) (hid : id < Gen.schema.structs.length)
+    (f : Field) (occ : Nat) (hf : (f, occ) ∈ withOcc [] (Gen.schema.structDef id).fields)
+    (hout : f.inAt V = false) :
+    structKeys Gen.schema id ≠ [] ∧ ∃ M m, Ver.lt V (M, m) = true ∧
+      ∀ k ∈ structKeys Gen.schema id, (k, f.tag, occ, M, m) ∈ Pinned.introduced := by
+  unfold Field.inAt at hout
+  cases hr : f.vrange with
+  | none => rw [hr] at hout; exact nomatch hout
+  | some r =>
+    rw [hr] at hout
+    obtain ⟨hstop, M, m, hstart, hne, hall⟩ := gen_every_range_is_pinned id hid f occ hf r hr
+    refine ⟨hne, M, m, ?_, hall⟩
+    obtain ⟨st, sp⟩ := r
+    cases hstop; cases hstart
+    dsimp only at hout
+    rw [introduced_range_contains] at hout
+    simpa using hout
+
+/-- 5e. specification ⇒ code: every pinned row `(key, tag, occ, M.m)` is a field of the struct with that key
+    which the version-`V` schema drops for every `V` before `M.m` and keeps from `M.m` on. -/
+theorem gen_pinned_later_is_dropped (q : Nat × Nat × Nat × Nat × Nat) (hq : q ∈ Pinned.introduced) :
+    ∃ id, id < Gen.schema.structs.length ∧ q.1 ∈ structKeys Gen.schema id ∧
+      ∃ f, (f, q.2.2.1) ∈ withOcc [] (Gen.schema.structDef id).fields ∧ f.tag = q.2.1 ∧
+        ∀ V, f.inAt V = !(Ver.lt V (q.2.2.2.1, q.2.2.2.2)) := by
+  obtain ⟨id, hid, hk, f, hf, ht, hr⟩ := gen_every_pin_is_annotated q hq
+  refine ⟨id, hid, hk, f, hf, ht, ?_⟩
+  intro V
+  unfold Field.inAt
+  rw [hr]
+  exact introduced_range_contains _ _
+
 /-! ### non-vacuity -/
 
-example : Pinned.introduced.length = 61 := by decide +kernel
+/-- the table is not empty and every row names a version 1.1 … 1.4 (so "below 1.0 everything goes, from 1.4
+    on everything stays"). -/
+example : Pinned.introduced.length ≥ 1 ∧
+    Pinned.introduced.all (fun q => q.2.2.2.1 == 1 && 1 ≤ q.2.2.2.2 && q.2.2.2.2 ≤ 4) = true := by
+  decide +kernel
 
-/-- a changed introduction version, a dropped row and an extra row are all detected. -/
-example : gatingMatches ((0x420077, 0x420105, 1, 3) :: Pinned.introduced.tail) Gen.schema = false := by
+/-- a changed introduction version, a dropped row, an extra row, and an annotation MOVED from the additional
+    Credential to the first one (same structure, same tag, other position) are all detected. -/
+example : gatingMatchesPos ((0x420077, 0x420105, 0, 1, 3) :: Pinned.introduced.tail) Gen.schema = false := by
   decide +kernel
-example : gatingMatches Pinned.introduced.tail Gen.schema = false := by decide +kernel
-example : gatingMatches ((0x420077, 0x420050, 1, 1) :: Pinned.introduced) Gen.schema = false := by
+example : gatingMatchesPos Pinned.introduced.tail Gen.schema = false := by decide +kernel
+example : gatingMatchesPos ((0x420077, 0x420050, 0, 1, 1) :: Pinned.introduced) Gen.schema = false := by
   decide +kernel
+example : gatingMatchesPos ((0x42000C, 0x420023, 0, 1, 2) ::
+    Pinned.introduced.filter (fun q => q.1 != 0x42000C)) Gen.schema = false := by decide +kernel
+/-- … and the row of Authentication really is at occurrence 1. -/
+example : (0x42000C, 0x420023, 1, 1, 2) ∈ Pinned.introduced := by decide +kernel
 
 /-- the RequestHeader of the current schema (found by its tag, not by its id). -/
 def requestHeaderDef : StructDef :=
@@ -308,5 +437,53 @@ def decodedClientCorrelation : Option Bytes :=
   | _ => none
 
 example : decodedClientCorrelation = some [0x63] := by decide +kernel
+
+/-! the end-to-end statement on concrete values -/
+
+/-- the version-1.0 schema of the request header has lost the four later header fields … -/
+example : ((Gen.schema.restrict (1, 0)).structs.find? (fun d => d.defTag == T.requestHeader)).map
+    (fun d => d.fields.map (·.tag)) = some
+    [0x420069, 0x420050, 0x420007, 0x42000C, 0x42000E, 0x420010, 0x420092, 0x42000D] := by decide +kernel
+/-- … the version-1.3 schema only the two 1.4 ones, the version-2.0 schema none. -/
+example : ((Gen.schema.restrict (1, 3)).structs.find? (fun d => d.defTag == T.requestHeader)).map
+    (fun d => d.fields.map (·.tag)) = some
+    [0x420069, 0x420050, 0x420007, 0x4200D3, 0x4200C7, 0x42000C, 0x42000E, 0x420010, 0x420092, 0x42000D] := by
+  decide +kernel
+example : ((Gen.schema.restrict (2, 0)).structs.find? (fun d => d.defTag == T.requestHeader)).map
+    (fun d => d.fields.length) = some requestHeaderDef.fields.length := by decide +kernel
+/-- no annotation is left anywhere in a restricted schema's reflectively encoded structs. -/
+example : (Gen.schema.restrict (1, 2)).structs.all
+    (fun d => d.encCustom || d.fields.all (fun f => f.vrange.isNone)) = true := by decide +kernel
+
+/-- the hypotheses of 3'e are satisfiable: the nested sample message only holds a Get request payload behind
+    its interface. -/
+example : Val.dynsOkL Gen.schema.payloadLikeDyn
+    (match sampleMessage 1 0 with | .struct fs => fs | _ => []) = true := by decide +kernel
+
+/-- the stripped Get request payload: at 1.0 KeyWrapType (third field) and, inside the
+    KeyWrappingSpecification, EncodingOption are gone (5 → 4 fields each); at 1.1 only KeyWrapType; at 1.4
+    nothing. -/
+def strippedGetShape (V : Ver) : Nat × Nat :=
+  match rvK Gen.schema V 64 (Gen.schema.dyn (Gen.schema.payloadDyn 0xA false)).kind
+      (.ptr (some (.struct [.text [0x31], .int 0, .int 1, .int 0,
+          .ptr (some (.struct [.int 1, .ptr none, .ptr none, .list [], .int 1]))]))) with
+  | .ptr (some (.struct fs)) =>
+    (fs.length, match fs.getLast? with | some (.ptr (some (.struct gs))) => gs.length | _ => 0)
+  | _ => (0, 0)
+example : strippedGetShape (1, 0) = (4, 4) ∧ strippedGetShape (1, 1) = (4, 5) ∧
+    strippedGetShape (1, 4) = (5, 5) ∧ strippedGetShape (0, 9) = (4, 4) ∧ strippedGetShape (2, 0) = (5, 5) := by
+  decide +kernel
+
+/-- 3'c on the nested sample message, computed: the tags written with the RESTRICTED schema for the STRIPPED
+    message are the tags written by the library's schema (cf. `messageTags` above), at 1.0, 1.1 and 1.4. -/
+def restrictedMessageTags (major minor : Int) : List Nat :=
+  let V : Ver := (major.toNat, minor.toNat)
+  match encK (Gen.schema.restrict V) 64 (Gen.schema.dyn Gen.requestMessageDyn).kind T.requestMessage
+      (rvK Gen.schema V 64 (Gen.schema.dyn Gen.requestMessageDyn).kind
+        (.ptr (some (sampleMessage major minor)))) none with
+  | .ok (items, _) => allTagsL items
+  | _ => []
+example : restrictedMessageTags 1 0 = messageTags 1 0 ∧ restrictedMessageTags 1 1 = messageTags 1 1 ∧
+    restrictedMessageTags 1 4 = messageTags 1 4 := by decide +kernel
 
 end Kmip.C05
